@@ -191,7 +191,7 @@ CLAIMED["C14"] = dict(
     design_ref="DESIGN.md §6 C14",
     note="trusted: Lean kernel; Model/SrcSem.lean is the hand-written specification (not derived from compile.rs); the generator "
          "builds the syntax tree itself, so parser and type checker are on the tested side",
-    technique="Lean 4 proof (environment-shape invariant over the interpreter; refinement of the compiler model incl. mux_envs for the core fragment) + differential testing against the compiler",
+    technique="Lean 4 proof (environment-shape invariant over the interpreter; refinement of the compiler model incl. mux_envs, loops, element writes, calls) + differential testing against the compiler",
 )
 
 CLAIMED["C08"] = dict(
@@ -319,7 +319,7 @@ CLAIMED["C01"] = dict(
     note="trusted: Lean kernel; Model/SrcSem.lean is the hand-written specification; Model/BitSem.lean is tied to compile.rs by "
          "the correspondence on core-fragment programs, Model/Arith.lean to CircuitBuilder by C03/C04; eval() and the register "
          "conversion by C16/C10",
-    technique="Lean 4 proof (compiler-model soundness for the core fragment) + differential testing for the whole language",
+    technique="Lean 4 proof (the value-level model of compile.rs refines the source semantics: every construct except for-join / join) + differential testing for the whole language",
 )
 
 CLAIMED["C06"] = dict(
